@@ -108,7 +108,7 @@ func replayPrinterLine(rep *lib.Report, prop string, ln *printerLine, raw []byte
 	} else if !bytes.Equal(res.Out, exp) {
 		rep.DriftAt(fmt.Sprintf("%s: real %q, model %q", desc(), res.Out, exp))
 	}
-	if !callsEqual(res.Calls, ln.Calls) {
+	if !usesStdFmt(ln) && !callsEqual(res.Calls, ln.Calls) {
 		rep.DriftAt(fmt.Sprintf("%s: user methods invoked %v, model %v", desc(), res.Calls, ln.Calls))
 	}
 	if ln.C.E == "Errorf" {
@@ -125,6 +125,43 @@ func replayPrinterLine(rep *lib.Report, prop string, ln *printerLine, raw []byte
 	if len(ln.Rt) > 1 {
 		rep.Sample(map[string]interface{}{"case": desc(), "real_output": string(res.Out), "model_output": string(exp)})
 	}
+}
+
+// usesStdFmt: some part of the case is rendered by the standard fmt package (the
+// Format/SafeMessage methods of the Safe/Unsafe wrappers); the methods fmt invokes
+// there are outside the specification's call log.
+func usesStdFmt(ln *printerLine) bool {
+	var has func(ts []*lib.Term) bool
+	has = func(ts []*lib.Term) bool {
+		for _, t := range ts {
+			if t == nil {
+				continue
+			}
+			if t.K == "safe" || t.K == "unsafe" {
+				return true
+			}
+			if has(t.Xs) || has(t.Pan) {
+				return true
+			}
+			for _, op := range t.Scr {
+				if has(op.Ts) {
+					return true
+				}
+			}
+			for _, op := range t.FScr {
+				if has(op.Ts) {
+					return true
+				}
+			}
+		}
+		return false
+	}
+	for _, op := range ln.C.Scr {
+		if has(op.Ts) {
+			return true
+		}
+	}
+	return has(ln.C.Ts)
 }
 
 func findTerm(ts []*lib.Term, id int) *lib.Term {
